@@ -2,11 +2,45 @@
 
 Proof: Poly/Props/C37.lean — sequential TXPool model (no duplicate hash, add/del/clean refine a finite map,
 GetTxPool bounds and stale reporting for every map iteration order) for all operation sequences; server-level
-count model of check-then-act admission with the bound pool <= MAX_CAPACITY + MAX_LIMITATION for all
-interleavings, tightness of that bound, and refutation of the strong bound in the model.
+count model: pool <= MAX_CAPACITY for all interleavings of the admission fragment; the bound for the whole
+server is stated and refuted in the model (block verification, re-verification window).
 Tie: stream `pool` (hpool executes the real txnpool/common.TXPool, drv_pool the model, same op lines; GetTxPool
-results are re-checked by the model through a witness iteration order).
+results are re-checked by the model through a witness iteration order); stream `poolconc` (8..16 real goroutines on
+one TXPool, recorded history linearized and the witness re-executed by the model; schedules are sampled); stream
+`poolsrv` (the real TXPoolServer with actors, workers and scripted validators at the real constants, counts
+compared with the count model at quiescent points, capacity oracle).
 """
+
+
+def judge_known_unshrunk(ctx, res, theorem_hint):
+    """Like ctx.judge, but violations whose key is a listed known finding are not delta-debugged again on every run
+    (each shrink step re-executes the whole scenario); anything else goes through the normal path."""
+    import json
+    import os
+    import re
+    import vcheck
+    pats = []
+    kf = os.path.join(vcheck.ROOT, "known_findings.json")
+    if os.path.exists(kf):
+        pats = [e["match"] for e in json.load(open(kf)).get("findings", [])
+                if e.get("property") == ctx.pid and e.get("status") == "known"]
+    known = [v for v in res["viol"] if any(re.fullmatch(p, v["key"]) for p in pats)]
+    other = [v for v in res["viol"] if v not in known]
+    hc = res.get("harness_cmd")
+    if known:
+        r1 = dict(res)
+        r1["viol"], r1["mismatches"], r1["harness_cmd"] = known, [], None
+        r1.pop("driver_error", None)
+        ctx.judge(r1, theorem_hint=theorem_hint)
+        for v in ctx.violations:
+            if v.replay is not None and v.replay.get("harness_cmd") is None:
+                v.replay["harness_cmd"] = hc
+    r2 = dict(res)
+    r2["viol"] = other
+    if known and not other and res["mismatches"]:
+        # a model/implementation disagreement next to known findings is still reported
+        r2["viol"] = []
+    ctx.judge(r2, theorem_hint=theorem_hint)
 
 
 def run(ctx):
@@ -23,6 +57,8 @@ def run(ctx):
     if hbin:
         res = ctx.correspondence("pool", hbin, ["pool"], drv, ["pool"])
         ctx.judge(res, theorem_hint="Poly.Props.C37.* (model Poly.Model.Pool no longer matches txnpool/common.TXPool)")
+        res = ctx.correspondence("poolconc", hbin, ["poolconc"], drv, ["poolconc"])
+        ctx.judge(res, theorem_hint="Poly.Props.C37 sequential theorems (a recorded concurrent history has no linearization accepted by the model)")
         res = ctx.correspondence("poolsrv", hbin, ["poolsrv"], drv, ["poolsrv"], mem_gb=14)
-        ctx.judge(res, theorem_hint="Poly.Props.C37 server-level theorems (count model Srv no longer matches txnpool/proc at quiescent points)")
+        judge_known_unshrunk(ctx, res, "Poly.Props.C37 server-level theorems (count model Srv no longer matches txnpool/proc at quiescent points)")
     ctx.judge_lean()
